@@ -81,7 +81,7 @@ def main(argv):
     pid = argv[1]
     tier = os.environ.get('VERIF_TIER') or 'quick'
     args = argv[2:]
-    if args and args[0] in ('quick', 'thorough'):
+    if args and args[0] in ('quick', 'thorough', 'exhaustive'):
         tier = args[0]
         args = args[1:]
     if args and args[0] == '--replay':
@@ -107,7 +107,7 @@ def main(argv):
 
     # ---- thorough tier: the same groups under two further solver seeds (verdict stability; recorded, never changes the exit code) --
     stability = {}
-    if tier == 'thorough':
+    if tier in ('thorough', 'exhaustive'):
         todo = [(g['group'], s) for g in groups for s in (3, 11) if results[g['group']].get('status') != 'undecided']
         with concurrent.futures.ThreadPoolExecutor(max_workers=4) as ex:
             futs = {ex.submit(vverus.verdict_under_seed, grp, s): (grp, s) for (grp, s) in todo}
@@ -117,7 +117,7 @@ def main(argv):
 
     # ---- Kani units ----------------------------------------------------------------------
     kani_results = []
-    kunits = [k for k in cfg.get('kani', []) if tier == 'thorough' or k.get('tier', 'quick') == 'quick']
+    kunits = [k for k in cfg.get('kani', []) if tier == 'exhaustive' or (tier == 'thorough' and k.get('tier', 'quick') != 'exhaustive') or k.get('tier', 'quick') == 'quick']
     if kunits:
         from . import kani as vkani
         kani_results = vkani.run_units(kunits, pid)
